@@ -101,8 +101,19 @@ static int block_id_of(const SU_vector& v) {
 }
 
 // every const query entry point of the shared, frozen solver (plain, averaging, explicit-buffer overloads)
-static std::string query_all(const SU_vector& op, int t, int r) {
+static std::string query_all(const SU_vector& op, int t, int r, int first = -1) {
   double x = 1.0 + 0.37 * ((t + 2 * r) % 5);
+  if (first >= 0) {   // let a chosen entry point be the thread's very first library activity
+    std::vector<bool> av(3); double z = 0;
+    switch (first % 5) {
+      case 0: z = shared->GetExpectationValueD(op, 0, x); break;
+      case 1: z = shared->GetExpectationValueD(op, 0, x, 1e9, av); break;
+      case 2: z = shared->GetExpectationValue(op, 0, 1); break;
+      case 3: z = shared->GetExpectationValue(op, 0, 1, 1e9, av); break;
+      case 4: { SU_vector m = shared->GetIntermediateState(0, x); z = m[0]; } break;
+    }
+    (void)z;
+  }
   std::vector<bool> avr1(3), avr2(3), avr3(3);
   SQuIDS::expectationValueDBuffer buf(3);
   double e[7];
@@ -198,11 +209,20 @@ int main(int argc, char** argv) {
         for (int r = 0; r < rounds; r++) { phase_a(t, r, n, seed, pool, res[t]); phase_b(t, r, n, pool, res[t]); }
       });
     // one more worker whose ONLY library activity is const queries on the shared solver (operators built by main)
-    std::thread qonly([&] {
-      my_tid = n + 1;
-      for (int r = 0; r < rounds * 8; r++) qres.r.push_back(query_all(*qop, n, r));
-    });
-    qonly.join();
+    for (int first = 0; first < 5; first++) {    // five short-lived workers, each starting with a different entry point
+      std::thread qonly([&, first] {
+        my_tid = n + 1;
+        for (int r = 0; r < rounds * 8; r++) { std::string q = query_all(*qop, n, r, r == 0 ? first : -1); if (first == 0) qres.r.push_back(q); }
+      });
+      qonly.join();
+      if (first < 4 && tracing) {
+        std::lock_guard<std::mutex> g(logm);
+        std::string left;
+        for (int id = 1; id <= MAXB; id++) if (used[id] && cached_by[id] == n + 1) left += (left.empty() ? "" : ",") + std::to_string(id);
+        logv.push_back("{\"e\":\"Exit\",\"t\":" + std::to_string(n + 1) + ",\"left\":[" + left + "]}");
+        logv.push_back("{\"e\":\"Respawn\",\"t\":" + std::to_string(n + 1) + "}");
+      }
+    }
     if (tracing) {
       std::lock_guard<std::mutex> g(logm);
       std::string left;
